@@ -12,7 +12,8 @@ package main
 //     under two keys);
 //   - resCleanupGuard / resCleanupKeys: the condition and the keys of the deferred cleanup in
 //     clientHandshake;
-//   - resLoadKey: the argument of SessionCache.Get in loadSession;
+//   - resLoadKey: the argument of SessionCache.Get in loadSession; resLoadVerifiesCerts: whether
+//     loadSession refuses (returns no session) when the recorded certificates do not verify;
 //   - resServerGuards: the conditions under which checkForResumption returns false, in order;
 //   - resClientResumedExpr: the expression returned by serverResumedSession; resClientChecks:
 //     the conditions of the error returns that follow it in processServerHello;
@@ -176,6 +177,20 @@ func emitResumption(e *emitter, p *pkg) {
 			return true
 		})
 	}
+	// does loadSession re-verify the recorded certificates before offering the session (F13 repair)?
+	loadVerifies := false
+	if fd := p.funcs["Conn.loadSession"]; fd != nil && fd.Body != nil {
+		for _, st := range fd.Body.List {
+			if is, ok := st.(*ast.IfStmt); ok && is.Init != nil && strings.Contains(p.src(is.Init), "verifySessionCertificates(session.peerCertificates)") && p.src(is.Cond) == "err != nil" {
+				for _, b := range is.Body.List {
+					if rs, ok := b.(*ast.ReturnStmt); ok && len(rs.Results) == 2 && p.src(rs.Results[1]) == "nil" {
+						loadVerifies = true
+					}
+				}
+			}
+		}
+	}
+	e.boolean("resLoadVerifiesCerts", loadVerifies)
 	e.str("resLoadKey", loadKey)
 	if loadKey == "" {
 		miss("resLoadKey")
